@@ -39,6 +39,7 @@ def env_setup(I, kind, limit=None):
     del I.ctx.obligations[saved_obl:]          # the constructor's own obligations belong to its contract (EnvInit)
     B_.INF_SYMBOL = None
     env.fresh = False
+    V.mark_preexisting(env)
     sig.install_layout(I)                      # post of the constructor (proved by EnvInit / GenerateInitialState)
     env.fields["network"] = net
     L = sig.layout()
@@ -453,3 +454,31 @@ class GoalReached(Contract):
 
     def frame(self, I, S):
         return [("C06.pure." + l, g) for l, g in env_frame(S.a["self"], S.old["env"])]
+
+
+@contract
+class EnvClose(Contract):
+    """NASimEnv.close only releases this environment's renderer: it touches no global state (C19)"""
+    qualname = "nasim.envs.environment.NASimEnv.close"
+    callable_by_contract = False
+    bounded = False
+    tags = {"": ("C19",)}
+
+    def setup(self, I, variant):
+        sig, T, st, env, a = env_setup(I, None)
+        env.fields["_renderer"] = None
+        env.hidden.discard("_renderer")
+        S = Scope(sig=sig)
+        S.a = {"self": env}
+        S.call_args = ([env], {})
+        return S
+
+    def modifies(self, I, S):
+        return [S.a["self"]]
+
+    def snapshot(self, I, S):
+        S.old["env"] = env_snapshot(S.a["self"])
+
+    def frame(self, I, S):
+        return [("C19.close-keeps-episode-state", g) for l, g in
+                env_frame(S.a["self"], S.old["env"], allowed=("_renderer",))]
